@@ -33,8 +33,6 @@ def loader_load_path(eng, c, f, entry, j, raised):
     syn(eng, c, f, j, "one-parse", len(loads) <= 1 and all(e[2]["pickled"].t.eq(file.t) for e in loads), "the stream is parsed at most once")
     syn(eng, c, f, j, "one-analysis", len(checks) <= 1, "the pickle is analysed at most once")
     syn(eng, c, f, j, "one-execution", len(unp) <= 1, "the bytes are executed at most once")
-    reads_after = [e for e in f.log[f.log.index(loads[0]) + 1:] if e[0] == "effect" and e[1].startswith(("read", "seek"))] if loads else []
-    syn(eng, c, f, j, "no-second-pass", not reads_after, "after the parse returns the stream is not read again (TOCTOU)")
     if unp:
         syn(eng, c, f, j, "execution-needs-verdict", len(loads) == 1 and len(checks) == 1 and f.log.index(checks[0]) < f.log.index(unp[0]),
             "nothing is executed before the verdict exists")
